@@ -120,4 +120,24 @@ def rep(arr, kind):
     return a
 
 
-REPS = ["c", "f", "strided", "readonly", "neg"]
+REPS = ["c", "f", "strided", "readonly", "neg", "int", "f32"]
+
+
+def rep_values(arr, kind, scale=1.0):
+    """'int' and 'f32' change the VALUES (integer-valued / float32-representable numbers): returns the float64 array of the
+    values actually handed over, to be used by the oracle as well. Other kinds return the array unchanged."""
+    a = np.array(arr, dtype=float)
+    if kind == "int":
+        return np.rint(a * scale)
+    if kind == "f32":
+        return a.astype(np.float32).astype(float)
+    return a
+
+
+def rep_typed(vals, kind):
+    """the array object handed to gbasis for representation `kind` (values must come from rep_values)"""
+    if kind == "int":
+        return np.array(vals, dtype=np.int64)
+    if kind == "f32":
+        return np.array(vals, dtype=np.float32)
+    return rep(vals, kind)
